@@ -76,7 +76,7 @@ def leaf_value(key, templates=True):
 def option_dicts(draw, templates=True, p_present=0.6, with_thresh=True):
     """A nested JSON options dictionary over the universe."""
     o = {}
-    pres = st.floats(0, 1).map(lambda x: x < p_present)
+    pres = st.sampled_from(range(100)).map(lambda x: x < p_present * 100)
     for k in FLAT:
         if draw(pres):
             o[k] = draw(leaf_value(k, templates))
@@ -268,18 +268,18 @@ def edit_dict(draw, o, templates=True, allow_unmentioned=True):
 
 
 @st.composite
-def histories(draw, min_len=2, max_len=8, templates=True, allow_unmentioned=True):
+def histories(draw, min_len=2, max_len=8, templates=True, allow_unmentioned=True, p_present=0.6):
     """A list of option dictionaries built from neighbour edits, exact repeats and fresh draws."""
     n = draw(st.integers(min_len, max_len))
-    hist = [draw(option_dicts(templates=templates))]
+    hist = [draw(option_dicts(templates=templates, p_present=p_present))]
     kinds = []
     while len(hist) < n:
-        how = draw(st.sampled_from(["edit", "edit", "edit", "edit2", "repeat", "fresh"]))
+        how = draw(st.sampled_from(["edit", "edit", "edit", "edit", "edit2", "edit2", "repeat", "repeat", "fresh"]))
         j = draw(st.integers(0, len(hist) - 1))
         if how == "repeat":
             hist.append(copy.deepcopy(hist[j]))
         elif how == "fresh":
-            hist.append(draw(option_dicts(templates=templates)))
+            hist.append(draw(option_dicts(templates=templates, p_present=p_present)))
         else:
             o, _ = draw(edit_dict(hist[j], templates, allow_unmentioned))
             if how == "edit2":
